@@ -36,6 +36,10 @@ class Tok:
     def __repr__(self):
         return "%s(%r)" % (type(self).__name__, self.raw)
 
+    def __bool__(self):
+        # like datetime.timedelta(0) or Decimal(0): a perfectly good value that is falsy
+        return not str(self.raw).endswith(("0", "5"))
+
 '''
 
 CSM_PER_SCALAR = '''
@@ -192,7 +196,7 @@ def worker(case: Dict[str, Any]) -> CaseResult:
             if v == "native_datetime":
                 return lambda n: (datetime.datetime(2020, 1, 1) + datetime.timedelta(seconds=n)).isoformat()
             if v in ("serialize_str", "parse_str", "unconfigured"):
-                return lambda n: "" if n % 6 == 0 else "%s#%d" % (name, n)  # a non-null but falsy value is still a value
+                return lambda n: "" if n % 4 == 0 else "%s#%d" % (name, n)  # a non-null but falsy value is still a value
             return lambda n: "%s#%d" % (name, n)
 
         tokens = {n: token_gen(n) for n in scalars}
